@@ -779,6 +779,19 @@ func (fx *FnCtx) generate() {
 		}
 		fx.assumeDef(t)
 	}
+	// hints: terms over entry values that the solver should see (seeds for E-matching); an uninterpreted
+	// predicate applied to the term is assumed, which constrains nothing
+	for _, h := range fx.fc.Hints {
+		env := fx.env(entry)
+		v, err := env.elab(h)
+		if err != nil {
+			fx.errf("binding failure: %s hint: %v", fx.key, err)
+			continue
+		}
+		if hf := map[string]string{"Int": "hintI", "Str": "hintS", "Bool": "hintB"}[v.T.Sort]; hf != "" {
+			fx.assume(Term{"(" + hf + " " + v.T.S + ")", "Bool"})
+		}
+	}
 	fx.items = append(fx.items, Item{kind: itOblig, block: -1, t: tFalse, name: "cover:" + fx.key, clause: "precondition, prelude and used axioms are satisfiable", cover: true, props: fx.fc.Props})
 
 	for _, b := range fx.order {
